@@ -1,6 +1,6 @@
 /- Driver for the Relay model (C15).
    op:  req <handler> <threshold> <method> <uri> <ip> <id> <behaviour>
-        (hex fields; behaviour = comma separated h<code> | w | p<k> | pa | r, or - when empty)
+        (hex fields; behaviour = comma separated h<code> | w | f | p<k> | pa | r, or - when empty)
    out: esc=<none|abort|k> r500=<bool> wire=<status> log=<BEG:…;ERR:k:id;END:code:…> -/
 import Glb.Driver.Common
 import Glb.Model.Relay
@@ -12,6 +12,7 @@ def parseEv (t : String) : Option Ev :=
   match t.toList with
   | ['w'] => some .write
   | ['r'] => some .ret
+  | ['f'] => some .flush
   | ['p', 'a'] => some (.panic .abort)
   | 'p' :: ds => (String.ofList ds).toNat?.map fun k => .panic (.other k)
   | 'h' :: ds => (String.ofList ds).toNat?.map .writeHeader
